@@ -230,6 +230,18 @@ func c18Binding(spec WorldSpec) (string, string, map[string]int) {
 			}
 		}
 	}
+	// the factory's EnableUserNameChange setting is part of the behaviour bound to SetUserName: a second name for an account
+	// that has one is accepted exactly when the configuration enables changes
+	{
+		dns, u0 := []byte(spec.DNS[0]), []byte(spec.Users[0])
+		c := &Call{Shard: int(computeShard(dns, uint32(spec.NShards))), Fn: refBuiltInFunctionSetUserName, Caller: cp(dns), Rcv: cp(u0), Args: hbs([]byte("alice-renamed")), Gas: ampleGas}
+		if computeShard(dns, uint32(spec.NShards)) == computeShard(u0, uint32(spec.NShards)) {
+			rec := e.Apply(callOp(c))
+			if rec != nil && rec.Res.Panic == nil && rec.Res.OK() != spec.EnableNameChange {
+				return "binding/SetUserName/name-change-setting", sprintf("a container built with EnableUserNameChange=%v: renaming an account that has a name gave %v (%v)", spec.EnableNameChange, outcomeOf(rec), rec.Res.Err), okCount
+			}
+		}
+	}
 	for _, name := range allFunctionNames {
 		if okCount[name] == 0 {
 			return "binding/" + name + "/never-succeeds", sprintf("the fingerprint scenario of %q never succeeded through container.Get(%q)", name, name), okCount
